@@ -930,6 +930,35 @@ def run_case(case, hold_root=False, shared=None):
             )
             if faulted:
                 res.faulted = True
+    # what tree_probs hands out is the caller's: writing into it (temperature, masking) must not
+    # reach back into the tree
+    res.scribble = None
+    if tree is not None and res.error is None and res.phases:
+        try:
+            before = dump_tree(tree, rec.ev_of)
+            nodes, stack = [], [tree]
+            while stack and len(nodes) < 12:
+                nd = stack.pop()
+                if nd.children:
+                    nodes.append(nd)
+                    stack.extend(nd.children[:4])
+            cap, rec.capture_solver = rec.capture_solver, False  # these calls are the harness's own
+            try:
+                with rec:
+                    for nd in nodes:
+                        try:
+                            w = engine.tree_probs(nd)
+                            if hasattr(w, "zero_"):
+                                w.zero_()
+                        except Exception:
+                            pass
+            finally:
+                rec.capture_solver = cap
+            after = dump_tree(tree, rec.ev_of)
+            if after != before:
+                res.scribble = {"before": before, "after": after}
+        except (NonFinite, NodeUnreadable):
+            pass
     res.tree = tree
     res.pos_after = ser.pos_str(pos)
     res.solver_calls = rec.solver_calls
